@@ -38,6 +38,43 @@ What is translated (everything else raises TranslateError -> status "undecided")
 What is dropped (no Lean counterpart): `&`/`&mut`/`*` on expressions, `mut`, type annotations,
 comments, the blocks of skipped early-return guards (their conditions are printed as comments and must
 match the spec literally).
+
+Spec file  /verif/lean/<name>.json  (hand-written; everything NOT listed here is generated from the source):
+  name        theorem / file name, equal to the file's base name
+  doc         prose statement of the obligation (evidence text)
+  source      path of the Rust file relative to the repo root
+  function    `Type::method` (must be unique among the `impl .. Type` blocks of the file)
+  path        block selector: one entry per `if` met on the path, in source order,
+              {"if": <ordinal 0,1,..>, "cond": "<condition text, compared ignoring white space>",
+               "take": "skip" | "then" | "else"}
+              skip = early-return guard (no else, block ends in `return`), its block is not executed;
+              then/else = the block is inlined in place of the `if`.  An `if` without entry, an entry
+              without `if`, a changed condition or a guard that no longer returns -> undecided.
+  structure   "Field F" | "CommRing R"
+  vars        universally quantified elements of the carrier
+  hyps        hypothesis binders, Lean text, e.g. "(hZ : Z ≠ 0)"
+  params      optional lets emitted BEFORE the generated chain ("X1 := xa*Z1^2"): input parametrisation
+  inputs      Rust place or constant path -> Lean name (a var or a params name): "self.x": "X1"
+  methods     optional extra method mappings {"a_mul_u": {"lean": "({0} * u)", "doc": "why"}}
+  outputs     result component -> Lean name: struct fields, or lhs/rhs of a comparison, or "value".
+              If the component already is the let of that name nothing is added, else `let name := comp`.
+  post        lets emitted AFTER the generated chain (affine coordinates, slope, expected result)
+  conclusion  Lean proposition over vars, params, outputs, post names
+  tactic      lines of the proof script; {lets} {gen} {params} {post} expand to the comma separated let names
+
+Generated file = header + `theorem name {C} [structure] (vars : C) hyps :` + params lets + GENERATED lets +
+post lets + conclusion + `:= by` + `intro <all let names>` + tactic + `#print axioms name`.
+
+Status: proved = lean accepts, no sorry, only the three standard axioms; failed = Lean error located after
+the statement (the formulas no longer satisfy the identity); undecided = translator / structure / statement
+elaboration / resource problems.
+
+CLI (cwd /verif):  python3 -m vf.leangen <name>.. | --all   [--jobs=N]   one JSON line per obligation,
+                   exit 0 all proved / 1 some failed / 2 some undecided, none failed
+                   ... --print     show the generated Lean text only
+                   ... --mutants   negative check: every method call on the translated path is replaced by
+                                   another one (MUTATE table) in a scratch overlay (VERIF_REPO) and the
+                                   normal runner must answer `failed`
 """
 import os, sys, re, json, time, hashlib, subprocess, tempfile, shutil
 
@@ -822,7 +859,7 @@ def exit_code(results):
 # ----------------------------------------------------------------------------------------------
 MUTATE = {"fp_add": "fp_sub", "fp_sub": "fp_add", "fp_mul": "fp_add", "fp_sqr": "fp_double", "fp_double": "fp_triple",
           "fp_triple": "fp_double", "fp_neg": "fp_double", "fp_div2": "fp_double", "a_mul_u": "fp_double", "a_mul_v": "fp_double",
-          "fp_mul_u": "fp_mul", "sqr_u": "fp_sqr", "eq": None, "clone": None}
+          "fp_mul_u": "fp_mul", "sqr_u": "fp_sqr", "fp_inv": "fp_neg", "eq": None, "clone": None}
 
 def mutants(name):
     """[(description, relpath, mutated file text)] - one per method-call site on the translated path"""
